@@ -10,6 +10,8 @@ use std::io::{Read, Seek};
 pub enum ReadOp {
     Xml,
     Descriptors,
+    /// the file header as the reader reports it
+    Header,
     Raw { cloud: u8, take: u32 },
     Simple { cloud: u8, opts: u8, take: u32 },
     /// blob number `which` in the list (image blobs in order, then free blobs)
@@ -19,6 +21,9 @@ pub enum ReadOp {
     BlobInto { which: u8, room: u16, mode: u8 },
     /// either iterator driven through the standard adaptors skip(skip).step_by(step), at most `take` items
     Stride { cloud: u8, simple: bool, skip: u16, step: u8, take: u16 },
+    /// blob number `which` through a descriptor made by the caller (`Blob::new`) that is `extra` bytes longer than the
+    /// listed one: whatever the reader answers, it answers the same with and without a history
+    BlobLonger { which: u8, extra: u8 },
 }
 
 /// Result of one read operation: the Ok items (hashed), whether the
@@ -123,6 +128,7 @@ fn set_opts<T: Read + Seek>(it: &mut e57::PointCloudReaderSimple<T>, o: Opts) {
 pub fn run_op<T: Read + Seek>(rd: &mut E57Reader<T>, op: &ReadOp, free: &[(u64, u64)]) -> OpOut {
     match op {
         ReadOp::Xml => OpOut::scalar(Ok(rd.xml().to_string())),
+        ReadOp::Header => OpOut::scalar(Ok(format!("{:?}", rd.header()))),
         ReadOp::Descriptors => OpOut::scalar(Ok(format!(
             "{:?}|{:?}|{:?}|{:?}|{:?}|{:?}|{:?}",
             rd.guid(),
@@ -212,6 +218,19 @@ pub fn run_op<T: Read + Seek>(rd: &mut E57Reader<T>, op: &ReadOp, free: &[(u64, 
                 Err(e) => OpOut { items: vec![], completed: false, err: Some(e.to_string()), after_err: vec![] },
             }
         }
+        ReadOp::BlobLonger { which, extra } => {
+            let blobs = blob_list(rd, free);
+            if blobs.is_empty() {
+                return OpOut { items: vec![], completed: true, err: None, after_err: vec![] };
+            }
+            let b = &blobs[*which as usize % blobs.len()];
+            let longer = Blob::new(b.offset, b.length + *extra as u64);
+            let mut buf = Vec::new();
+            match rd.blob(&longer, &mut buf) {
+                Ok(n) => OpOut { items: vec![n, hash_str(&format!("{buf:?}"))], completed: true, err: None, after_err: vec![] },
+                Err(e) => OpOut { items: vec![], completed: false, err: Some(e.to_string()), after_err: vec![] },
+            }
+        }
         ReadOp::Stride { cloud, simple, skip, step, take } => {
             let pcs = rd.pointclouds();
             if pcs.is_empty() {
@@ -278,7 +297,7 @@ pub fn run_op<T: Read + Seek>(rd: &mut E57Reader<T>, op: &ReadOp, free: &[(u64, 
 
 /// Every kind of read operation once, in a fixed order.
 pub fn all_ops(clouds: usize, blobs: usize) -> Vec<ReadOp> {
-    let mut ops = vec![ReadOp::Xml, ReadOp::Descriptors];
+    let mut ops = vec![ReadOp::Xml, ReadOp::Descriptors, ReadOp::Header];
     for c in 0..clouds {
         ops.push(ReadOp::Raw { cloud: c as u8, take: u32::MAX });
         ops.push(ReadOp::Simple { cloud: c as u8, opts: Opts::DEFAULT_BITS, take: u32::MAX });
@@ -295,7 +314,8 @@ pub fn gen_op(s: &mut Src) -> ReadOp {
         1 => s.below(6) as u32,
         _ => s.below(3000) as u32,
     };
-    match s.weighted(&[1, 1, 4, 4, 3, 2, 2]) {
+    match s.weighted(&[1, 1, 4, 4, 3, 2, 2, 1]) {
+        7 => ReadOp::BlobLonger { which: s.byte(), extra: 1 + s.below(16) as u8 },
         0 => ReadOp::Xml,
         1 => ReadOp::Descriptors,
         2 => ReadOp::Raw { cloud: s.byte(), take: take(s) },
